@@ -73,7 +73,7 @@ Definition gets_i (st : state) (i : instr) : list Z :=
 Definition touches_i (st : state) (i : instr) : list Z :=
   match i with
   | INcGet _ _ | IRcvGet _ => gets_i st i
-  | IFailGet t _ | IEntomb t _ | IDelete t => live_call st t
+  | IFailGet t _ | IEntomb t _ | IDelete t _ => live_call st t
   | _ => []
   end.
 
